@@ -133,7 +133,7 @@ def run_impl(ctx, exe, lines, per_case_timeout=40):
     start = 0
     deaths = 0
     while start < len(lines):
-        if deaths >= 4:
+        if deaths >= 3 or DEATHS["total"] >= 6:
             # a tree that aborts / hangs again and again: the first few inputs are the replays, stop paying for more
             for i in range(start, len(lines)):
                 results[i] = Impl()
@@ -180,6 +180,7 @@ def run_impl(ctx, exe, lines, per_case_timeout=40):
         results[bad].crashed = True
         results[bad].why = ("timeout" if r.timed_out else (r.sanitizer or r.err[-600:] or "rc=%d" % r.rc))
         deaths += 1
+        DEATHS["total"] += 1
         start = bad + 1
     for i, x in enumerate(results):
         if x is None:
@@ -190,6 +191,7 @@ def run_impl(ctx, exe, lines, per_case_timeout=40):
 
 
 TIMES = {"model": 0.0, "impl": 0.0}
+DEATHS = {"total": 0}       # aborts / hangs of the harness in this run (bounded: each costs a timeout)
 
 
 def run_model(ctx, mexe, lines, workers=4):
@@ -665,6 +667,8 @@ def eval_e2e(ctx, exe, mexe, cases, tab, stats, report=True):
         stats["e2e"] += 1
         if r.crashed:
             viol(i, "tapkee::embed (or the routines it calls) aborts / hangs: " + str(r.why)[:600])
+            if r.why == "timeout":
+                violated[i] = "hang"          # do not pay for shrinking a hang
             continue
         B = r.mat("B")
         refvals, refvecs, refsqrt = r.mat("refvals"), r.mat("refvecs"), r.mat("refsqrt")
@@ -892,6 +896,8 @@ def probe_f7(ctx, exe, mexe, tab, stats):
     case = {"stream": "f7", "n": 5, "d": 4, "table": T, "seed": 1, "gen": "f7_probe"}
     r = run_impl(ctx, exe, ["TRI dense smallest 1 5 4 %s" % tab_tokens(T)])[0]
     stats["f7_probe"] = out[0]
+    if r.skipped:
+        return
     model_oob = out[0].split()[3:5] == ["-1", "-1"]
     vals = r.mat("vals")
     if r.crashed or (vals is not None and vals[0] != 4):
